@@ -3,6 +3,7 @@ package main
 import (
 	"fmt"
 	"go/ast"
+	"go/constant"
 	"go/token"
 	"go/types"
 	"sort"
@@ -1746,6 +1747,143 @@ func (c *Ctx) collectAll(rule string, funcs []*FuncInfo, clause string) (n, nvio
 				c.Violation(rule, key, bad, "the loop collects a result for each requested item of "+c.canon(info, rs.X, nil)+" and leaves with `break` without recording an error: the items after the current one are silently ignored").Clause = clause
 			} else {
 				c.OK(rule, key, rs.Pos(), "every requested item is looked at (no silent break)")
+			}
+			return true
+		})
+	}
+	return
+}
+
+// ---------------------------------------------------------------------------------------------
+// COMMENT-FORM (C01): the parser reads every `[...]` as ONE comment, so the writer must give every
+// comment its own pair of brackets: each loop over a comment slice in the writer (Tree.Newick,
+// Node.Newick and the functions of the package they call) writes both '[' and ']' inside its body.
+// A loop that writes a separator between the comments and brackets around the lot (CommentsString)
+// turns n comments into one when the text is read back.
+func (c *Ctx) commentForm(rule string, wt, wn *FuncInfo) (n int) {
+	clause := "node, root and branch comments are preserved"
+	units := []*FuncInfo{wt, wn}
+	seen := map[*types.Func]bool{wt.Obj: true, wn.Obj: true}
+	for i := 0; i < len(units) && i < 16; i++ {
+		for _, call := range callsIn(units[i].Decl.Body, true) {
+			g := calleeOf(units[i].Pkg.TypesInfo, call)
+			if g == nil || seen[g] || g.Pkg() != wt.Obj.Pkg() {
+				continue
+			}
+			if gi := c.FuncOfObj(g); gi != nil && gi.Decl.Body != nil {
+				seen[g] = true
+				units = append(units, gi)
+			}
+		}
+	}
+	commentVars := map[types.Object]bool{}
+	isCommentSlice := func(info *types.Info, e ast.Expr) bool {
+		e = unparen(e)
+		if call, ok := e.(*ast.CallExpr); ok {
+			if g := calleeOf(info, call); g != nil {
+				c.indexAccessors()
+				if fv, ok := c.getters[g]; ok {
+					return fv.Name() == "comment"
+				}
+			}
+			return false
+		}
+		if sel, ok := e.(*ast.SelectorExpr); ok {
+			if fv, ok := info.Uses[sel.Sel].(*types.Var); ok && fv.IsField() {
+				return fv.Name() == "comment"
+			}
+		}
+		if id, ok := e.(*ast.Ident); ok {
+			// a parameter that receives a comment slice at some call, or a local defined from one
+			if v := identObj(info, id); v != nil && commentVars[v] {
+				return true
+			}
+		}
+		return false
+	}
+	// propagate "is a comment slice" to helper parameters and single-definition locals
+	for iter := 0; iter < 4; iter++ {
+		for _, u := range units {
+			info := u.Pkg.TypesInfo
+			ast.Inspect(u.Decl.Body, func(m ast.Node) bool {
+				switch x := m.(type) {
+				case *ast.CallExpr:
+					g := calleeOf(info, x)
+					if g == nil || !seen[g] {
+						return true
+					}
+					sig := g.Type().(*types.Signature)
+					for i, a := range x.Args {
+						if i < sig.Params().Len() && isCommentSlice(info, a) {
+							commentVars[sig.Params().At(i)] = true
+						}
+					}
+				case *ast.AssignStmt:
+					if len(x.Lhs) == len(x.Rhs) {
+						for i, r := range x.Rhs {
+							if isCommentSlice(info, r) {
+								if o := identObj(info, x.Lhs[i]); o != nil {
+									commentVars[o] = true
+								}
+							}
+						}
+					}
+				}
+				return true
+			})
+		}
+	}
+	for _, u := range units {
+		info := u.Pkg.TypesInfo
+		k := 0
+		ast.Inspect(u.Decl.Body, func(m ast.Node) bool {
+			var body *ast.BlockStmt
+			var over ast.Expr
+			switch l := m.(type) {
+			case *ast.RangeStmt:
+				body, over = l.Body, l.X
+			case *ast.ForStmt:
+				if isIndexLoop(info, l) {
+					be := unparen(l.Cond).(*ast.BinaryExpr)
+					for _, side := range []ast.Expr{be.X, be.Y} {
+						if call, ok := unparen(side).(*ast.CallExpr); ok && len(call.Args) == 1 {
+							if id, ok := unparen(call.Fun).(*ast.Ident); ok && id.Name == "len" {
+								body, over = l.Body, call.Args[0]
+							}
+						}
+					}
+				}
+			}
+			if body == nil || !isCommentSlice(info, over) {
+				return true
+			}
+			k++
+			n++
+			open, close := false, false
+			ast.Inspect(body, func(q ast.Node) bool {
+				if bl, ok := q.(*ast.BasicLit); ok {
+					if tv, ok := info.Types[bl]; ok && tv.Value != nil {
+						s := ""
+						if tv.Value.Kind() == constant.String {
+							s = constant.StringVal(tv.Value)
+						} else if r, ok := constant.Int64Val(tv.Value); ok && bl.Kind == token.CHAR {
+							s = string(rune(r))
+						}
+						if strings.Contains(s, "[") {
+							open = true
+						}
+						if strings.Contains(s, "]") {
+							close = true
+						}
+					}
+				}
+				return true
+			})
+			key := fmt.Sprintf("%s/comments-loop#%d", funcName(u.Obj), k)
+			if open && close {
+				c.OK(rule, key, m.Pos(), "each comment is written inside its own brackets")
+			} else {
+				c.Violation(rule, key, m.Pos(), "the Newick writer reaches a loop over the comments of a node or branch that does not write '[' and ']' around each of them: the comments come out as one bracketed block and are read back as a single comment").Clause = clause
 			}
 			return true
 		})
